@@ -425,10 +425,6 @@ def correspond(ctx):
         ctx.dist(f'{s.name}:disagreements', len(bad))
     _state['disagreements'] = disagreements
     ctx.cov['programs'] = len(programs)
-    # core starts the failing-input search only when no failure has been recorded yet; the standing known finding
-    # (reported through ctx.fail by `mirror`) must not switch the search off for an unrelated broken obligation
-    if ctx.broken and ctx.failures and all(f.signature == KNOWN_MINUS_ONE for f in ctx.failures):
-        search(ctx)
 
 
 
